@@ -37,11 +37,11 @@ CleanupEv ==
          post == [d |-> ToDir(e.dir), tmp |-> e.tmp]
          v    == Viol(cur.d, post.d, A, e.now)
          code == Run(cur.d, cur.tmp, A, e.now, e.m, FALSE, "asc")
+         pat  == Run(cur.d, cur.tmp, A, e.now, e.m, TRUE, "asc")
      IN /\ cur' = post
         /\ IF e.junk # <<>> THEN Reject("junk", e.junk)
            ELSE IF v # {} THEN Reject("viol", v)
-           ELSE IF post # code /\ post # Run(cur.d, cur.tmp, A, e.now, e.m, TRUE, "asc")
-                THEN Reject("diverge", code)
+           ELSE IF post # code /\ post # pat THEN Reject("diverge", [code |-> code, patched |-> pat])
            ELSE TRUE
   /\ l' = l + 1 /\ UNCHANGED <<saved, done>>
 
